@@ -210,8 +210,23 @@ def refresh_coq_project():
 _req_re = re.compile(r'(?:From\s+PonyV\s+)?Require\s+(?:Import\s+|Export\s+)?([^.]*(?:\.[A-Za-z_][^.\s]*)*)\s*\.\s', re.S)
 
 
+def require_names(src):
+    """Logical names mentioned in the Require sentences of a (comment-stripped) Coq source. The source is cut into
+    sentences at '.' followed by white space first, so a Require never swallows what follows it."""
+    names = []
+    for sent in re.split(r'\.(?:\s+|$)', src):
+        m = re.match(r'\s*(?:From\s+(\S+)\s+)?Require\s+(?:Import\s+|Export\s+)?(.*)$', sent.strip(), re.S)
+        if not m: continue
+        prefix = m.group(1)
+        for name in m.group(2).split():
+            if not re.match(r'^[A-Za-z_][\w.]*$', name): continue
+            if prefix and not name.startswith(prefix + '.'): name = prefix + '.' + name
+            names.append(name)
+    return names
+
+
 def cone(roots):
-    """Transitive PonyV dependencies (as relative .v paths) of the given .v files, by reading Require lines."""
+    """Transitive PonyV dependencies (as relative .v paths) of the given .v files, by reading Require sentences."""
     seen, todo = [], list(roots)
     while todo:
         f = todo.pop()
@@ -221,10 +236,9 @@ def cone(roots):
             src = strip_comments(open(os.path.join(COQ, f)).read())
         except IOError:
             continue
-        for m in re.finditer(r'Require\s+(?:Import\s+|Export\s+)?((?:[A-Za-z_][\w.]*\s*)+)\.(?:\s|$)', src):
-            for name in m.group(1).split():
-                if name.startswith('PonyV.'):
-                    todo.append(name[len('PonyV.'):].replace('.', '/') + '.v')
+        for name in require_names(src):
+            if name.startswith('PonyV.'):
+                todo.append(name[len('PonyV.'):].replace('.', '/') + '.v')
     return sorted(seen)
 
 
